@@ -23,7 +23,7 @@ type WOp struct {
 	Target    uint           `json:"target,omitempty"`
 	Unscoped  bool           `json:"unscoped,omitempty"`
 	SessBatch int            `json:"session_batch_size,omitempty"` // create_slice / create_ptr_slice: Session{CreateBatchSize} routes Create through CreateInBatches
-	Share     bool           `json:"share,omitempty"` // records with the same non-zero key are one in-memory record shared by several parents
+	Share     bool           `json:"share,omitempty"`              // records with the same non-zero key are one in-memory record shared by several parents
 	Str       string         `json:"str,omitempty"`
 	Int       int            `json:"int,omitempty"`
 }
